@@ -9,6 +9,7 @@ package sim
 import (
 	"fmt"
 	"hash/fnv"
+	"regexp"
 	"runtime"
 	"sort"
 	"strings"
@@ -19,6 +20,9 @@ import (
 	"github.com/bufbuild/protocompile/verifhooks"
 	"github.com/petermattis/goid"
 )
+
+// addrRE strips pointer values from goroutine ids: names must be data only.
+var addrRE = regexp.MustCompile(`0x[0-9a-fA-F]+`)
 
 // HarnessFault is panicked (outside the bubble) when the simulator's own
 // assumptions are broken. It is never a property violation: the test binary
@@ -137,6 +141,7 @@ func (b *Bubble) yield(point, id string) {
 			return
 		}
 		g = &G{goid: gid}
+		id = addrRE.ReplaceAllString(id, "")
 		if b.running == nil {
 			g.Client = id
 			g.Name = id
